@@ -49,15 +49,21 @@ def capture(repo):
     def __init__(s,*a,**k):
       if a and isinstance(a[0],str) and 'wrapped_SCC' in a[0]: caught.append(a[0])
       super().__init__(*a,**k)
-  DSP.py.code.Source=Spy
+  import pymtl3.passes.mamba.Mamba2020Pass as MP
+  DSP.py.code.Source=Spy          # one `py` module: the Mamba pass sees the same spy
   try:
     for name,body in designs.family_B():
       if 'reject' in name: continue
-      del caught[:]
-      try:
-        Top,_=designs.load(name,body); t=Top(); t.elaborate(); t.apply(GenDAGPass()); t.apply(DSP.DynamicSchedulePass())
-      except Exception: continue
-      for i,src in enumerate(caught): out[f"{name}#{i}"]=src
+      for tag,Pass in (('dynamic',DSP.DynamicSchedulePass),('mamba',MP.Mamba2020Pass)):
+        del caught[:]
+        try:
+          Top,_=designs.load(name,body); t=Top(); t.elaborate(); t.apply(GenDAGPass())
+          if tag=='mamba':
+            from pymtl3.passes.sim.WrapGreenletPass import WrapGreenletPass
+            t.apply(WrapGreenletPass())
+          t.apply(Pass())
+        except Exception: continue
+        for i,src in enumerate(caught): out[f"{tag}:{name}#{i}"]=src
   finally: DSP.py.code.Source=orig
   return out
 
@@ -81,14 +87,18 @@ def register(reg):
   except Exception as e: srcs={}
   seen_text={}
   for dname,src in sorted(srcs.items()):
-    if '[' in src.split('scc_tick_func')[0].split('host=',1)[-1] or 'deepcopy' in src: continue      # list elements / non-Bits watched values: outside this contract
+    if 'deepcopy(' in src.split('def ',1)[-1] or re.search(r'host\.[\w\.]*\[',src): continue      # list elements / non-Bits watched values: outside this contract
     body=src.strip().split('generated_block')[0]
+    if 'def ' in body: body=body[body.index('def '):]          # the Mamba text starts with an import line
     paths=_paths(src)
     if not paths or any(not p.startswith('s.') and p!='s' for _,p in paths): continue
     k=re.sub(r'\W+','_',dname).strip('_')          # one contract per zoo design (stable names; the text itself may order the signals differently per process)
     fname=re.search(r'def (\w+)\(',body).group(1); qual=f"scc_{k}_{fname}"
     tick=f"scc_tick_{k}"
-    gm.add(qual,body.replace(f"def {fname}(",f"def {qual}("),{'scc_tick_func':Fn(tick),'UpblkCyclicError':Cls('UpblkCyclicError')})
+    # every function the loop body calls besides clone / the exception is an evaluation step of the group (scc_tick_func, or blkK / meta blocks in Mamba)
+    called={n.func.id for n in ast.walk(ast.parse(body)) if isinstance(n,ast.Call) and isinstance(n.func,ast.Name) and n.func.id not in('UpblkCyclicError','deepcopy','print')}
+    g={'UpblkCyclicError':Cls('UpblkCyclicError')}; g.update({c:Fn(tick) for c in called})
+    gm.add(qual,body.replace(f"def {fname}(",f"def {qual}("),g)
     gm.add(tick,f"def {tick}():\n  pass\n",{})
     P=[p for _,p in paths]
     def mk_effect(P):
@@ -96,11 +106,13 @@ def register(reg):
         root=st.env['s']
         for i,p in enumerate(P):
           leaf=_walk(st,root,p); n=as_int(st.heap[(leaf.id,'_nbits')])
-          st.env[f'g_pre_{i}']=st.heap[(leaf.id,'_uint')]              # ghost: the value before this evaluation of the group
           v=st.fresh_int(f"{p}._uint'"); st.heap[(leaf.id,'_uint')]=I(v); st.pc.append(z3.And(v>=0,v<st.th.pow2(n)))
       return effect
     reg.add(Contract(f'{GEN}::{tick}', view={}, cases=[Case('any',requires='True',ensures='True')], modifies=[], returns=None, trusted=True, call_effect=mk_effect(P), sample=False,
       note="the evaluation of the cyclic group (SimpleTickPass.gen_tick_function of its blocks): opaque, may change the value of every watched signal, keeps them valid Bits"))
+    def hook(ex,st,P=P):
+      # ghost: the values of the watched signals at the start of this iteration (before the group is evaluated)
+      for i,p in enumerate(P): st.env[f'g_pre_{i}']=st.heap[(_walk(st,st.env['s'],p).id,'_uint')]
     def ginit(ex,st,P=P):
       for i in range(len(P)): st.env[f'g_pre_{i}']=I(z3.Int(f"g_pre0_{i}"))
     reg.add(Contract(f'{GEN}::{qual}', view={'s':TreeT(P)},
@@ -109,6 +121,6 @@ def register(reg):
         source="C11: 'evaluation repeats the cyclic group until every signal carrying the cycle is stable; ... If no stable assignment is reached within the iteration bound ... a cyclic-dependency error is raised; "
                "evaluation never hangs and never returns an unstable state'")],
       loops={'while True':Loop(invariant=["0 <= N and N <= 100"]+[f"valid({p})" for p in P], decreases='100 - N', modifies=[f"{p}._uint" for p in P], ghost=[f'g_pre_{i}' for i in range(len(P))])},
-      ghost_init=ginit, modifies=[f"{p}._uint" for p in P], returns=None, property_ids=('C11',), sample=False,
+      ghost_init=ginit, ghost_hooks={'N += 1':hook}, modifies=[f"{p}._uint" for p in P], returns=None, property_ids=('C11',), sample=False,
       note=f"generated for zoo design {dname}; watched signals {P}"))
 register_spec_fun('gpre',lambda ex,a,st: st.env[f"g_pre_{z3.simplify(as_int(a[0])).as_long()}"],lambda i: 0)
